@@ -38,8 +38,8 @@ func (s *scen) deliverAll(bs ...*rBlock) {
 }
 
 func init() {
-	tn := chainkit.Opts{Testnet: true}
-	mainnet := chainkit.Opts{}
+	tn := chainkit.Opts{Testnet: true, GenesisTime: fixedGenesisTime}
+	mainnet := chainkit.Opts{GenesisTime: fixedGenesisTime}
 	corpusList = []corpusEntry{
 		{name: "retarget-shorter-heavier-and-exact-tie", thoroughOnly: true, opts: mainnet, run: func(s *scen) {
 			// 2014 common blocks 200 s apart; branch X: block 2015 late (retarget capped: bits stay 0x207fffff);
